@@ -346,6 +346,19 @@ def c11_extra(ctx):
     tc = fam_codec.run_cases(ctx.pvh, pc, ctx.work, "c11codec")
     v1, st1 = vlib.judge(ctx.work, "TraceCodec", tc, ctx.env, ctx.open, tag="c11codecj")
     verdicts = [(i, "C11", "single-call:" + r) for (i, p, r) in v1 if p == "C11"]
+    # JSON-any values (strings, json.Number, nested containers) decoded through the registered JSON codecs
+    jc, stj = fam_codec.mc_generic(ctx.work, "MCJsonAny", '  Env <- MCEnv\n  Leaves = {"a", "n0", "f15", "es"}\n  Depth = %d\n  Emit = TRUE\n' % (1 if ctx.quick else 2),
+                                   "RoundTrip Skippable MatcherSound")
+    ctx.add_mc(stj)
+    jc = [c for c in jc if c["ev"] == "codec"]
+    for c in jc:
+        c["cfg"] = fam_codec.CFGS["jsonany"]
+    pj = os.path.join(ctx.work, "c11json_cases.ndjson")
+    fam_codec.write_cases(jc, pj, 9500000)
+    ctx.case_files.append(pj)
+    tj = fam_codec.run_cases(ctx.pvh, pj, ctx.work, "c11json")
+    v3, st3 = vlib.judge(ctx.work, "TraceCodec", tj, ctx.env, ctx.open, tag="c11jsonj")
+    verdicts += [(i, "C11", "single-call:" + r) for (i, p, r) in v3 if p == "C11"]
     rnd = random.Random(ctx.seed)
     cases = [c for c in fam_sched.cases(ctx.quick, rnd) if c["family"].startswith("intern") or c["family"] == "three-intern"]
     for c in cases:
@@ -357,8 +370,8 @@ def c11_extra(ctx):
     ts = fam_codec.run_cases(ctx.pvh, ps, ctx.work, "c11sched", budget="30s")
     v2, st2 = vlib.judge(ctx.work, "TraceSched", ts, ctx.env, ctx.open, tag="c11schedj")
     verdicts += [(i, "C11", "concurrent-decode:" + r) for (i, p, r) in v2 if p == "C11"]
-    st = {k: st1.get(k, 0) + st2.get(k, 0) for k in ("events", "generated", "distinct")}
-    return verdicts, st, [tc, ts], (" + %d random single calls (argument unchanged) + %d scheduled concurrent decodes through one interning codec with the "
+    st = {k: st1.get(k, 0) + st2.get(k, 0) + st3.get(k, 0) for k in ("events", "generated", "distinct")}
+    return verdicts, st, [tc, ts, tj], (" + %d random single calls (argument unchanged) + %d scheduled concurrent decodes through one interning codec with the "
                                     "input buffers overwritten afterwards" % (n, len(cases)))
 
 
